@@ -1,6 +1,26 @@
 //! ccverif: runs /repo's code on generated inputs and writes the observations, as Gallina
 //! terms, for the Coq side to check (see /verif/DESIGN.md sections 1 and 3).
+#![allow(dead_code)]
+mod c01;
+mod c02;
+mod c03;
+mod c04;
+mod c05;
+mod c06;
+mod c07;
+mod c08;
+mod c09;
+mod c10;
+mod c11;
+mod c12;
 mod c13;
+mod c14;
+mod c15;
+mod c16;
+mod c17;
+mod c18;
+mod c19;
+mod c20;
 mod coqfmt;
 mod gen;
 mod out;
@@ -17,10 +37,26 @@ fn main() {
     std::panic::set_hook(Box::new(|_| {}));
     let mut out = out::Out::new(outfile);
     match prop {
-        "C13" => {
-            out.note("header", serde_json::json!(c13::HEADER));
-            c13::run(tier, seed, &mut out)
-        }
+        "C01" => { out.note("header", serde_json::json!(c01::HEADER)); c01::run(tier, seed, &mut out) }
+        "C02" => { out.note("header", serde_json::json!(c02::HEADER)); c02::run(tier, seed, &mut out) }
+        "C03" => { out.note("header", serde_json::json!(c03::HEADER)); c03::run(tier, seed, &mut out) }
+        "C04" => { out.note("header", serde_json::json!(c04::HEADER)); c04::run(tier, seed, &mut out) }
+        "C05" => { out.note("header", serde_json::json!(c05::HEADER)); c05::run(tier, seed, &mut out) }
+        "C06" => { out.note("header", serde_json::json!(c06::HEADER)); c06::run(tier, seed, &mut out) }
+        "C07" => { out.note("header", serde_json::json!(c07::HEADER)); c07::run(tier, seed, &mut out) }
+        "C08" => { out.note("header", serde_json::json!(c08::HEADER)); c08::run(tier, seed, &mut out) }
+        "C09" => { out.note("header", serde_json::json!(c09::HEADER)); c09::run(tier, seed, &mut out) }
+        "C10" => { out.note("header", serde_json::json!(c10::HEADER)); c10::run(tier, seed, &mut out) }
+        "C11" => { out.note("header", serde_json::json!(c11::HEADER)); c11::run(tier, seed, &mut out) }
+        "C12" => { out.note("header", serde_json::json!(c12::HEADER)); c12::run(tier, seed, &mut out) }
+        "C13" => { out.note("header", serde_json::json!(c13::HEADER)); c13::run(tier, seed, &mut out) }
+        "C14" => { out.note("header", serde_json::json!(c14::HEADER)); c14::run(tier, seed, &mut out) }
+        "C15" => { out.note("header", serde_json::json!(c15::HEADER)); c15::run(tier, seed, &mut out) }
+        "C16" => { out.note("header", serde_json::json!(c16::HEADER)); c16::run(tier, seed, &mut out) }
+        "C17" => { out.note("header", serde_json::json!(c17::HEADER)); c17::run(tier, seed, &mut out) }
+        "C18" => { out.note("header", serde_json::json!(c18::HEADER)); c18::run(tier, seed, &mut out) }
+        "C19" => { out.note("header", serde_json::json!(c19::HEADER)); c19::run(tier, seed, &mut out) }
+        "C20" => { out.note("header", serde_json::json!(c20::HEADER)); c20::run(tier, seed, &mut out) }
         _ => {
             eprintln!("unknown property {}", prop);
             std::process::exit(2);
